@@ -43,9 +43,9 @@ CHECKS["C11"] = dict(
          "converted exactly once, any append schedule on the base timeframe); conversion of candle i depends on candles <= i only; a raw "
          "candle merged into a converted bucket is merged into its raw values; the pre-repair resume index (finding F4) is refuted; "
          "and composed with a collapsing timeframe: mgr_append cfg (tasks cfg xs) ys = tasks cfg (xs ++ ys) for the whole pipeline "
-         "(collapse, convert from the resume index), any sorted raw stream and any split. "
+         "(collapse, convert from the resume index), any sorted raw stream and any split - and likewise for collapse, fill, convert. "
          "Correspondence: manager with HA, with/without timeframe and fill, states compared bit for bit incl. clean values and tags.",
-    note="Fill candles and candles_lifespan in the composed pipeline statement are covered by correspondence + falsifier, not by the "
+    note="candles_lifespan in the composed pipeline statement is covered by correspondence + falsifier, not by the "
          "theorem. Axioms: none.",
     technique="Coq proof (induction over the conversion loop, resume-index lemmas) + vm_compute correspondence + falsifier",
     design="5/C11")
@@ -55,10 +55,11 @@ CHECKS["C12"] = dict(
          "real buckets preserved in order, inserted candles flat at the predecessor's raw close with volume 0 and no readings; on every "
          "stream with non-decreasing timestamps collapse-then-fill returns (the Python loop's only non-termination case, a list that is "
          "not strictly increasing on the grid, is unreachable); and schedule independence: mgr_append cfg (tasks cfg xs) ys = tasks cfg "
-         "(xs ++ ys) for the manager with timeframe and fill, any sorted raw stream and any split. Correspondence and falsifier as for C03 with fill on, incl. schedule "
+         "(xs ++ ys) for the manager with timeframe and fill, any sorted raw stream and any split - also with Heikin-Ashi on top (collapse, fill, convert: fill "
+         "candles flat at the raw close of their predecessor on every schedule). Correspondence and falsifier as for C03 with fill on, incl. schedule "
          "independence against a batch twin (with and without Heikin-Ashi), and the same stream through a Hexital without a timeframe whose "
          "member asks for one (the Hexital's fill flag governs) against the standalone manager.",
-    note="Fill combined with Heikin-Ashi or a lifespan under appends is decided by correspondence + falsifier. Axioms: none.",
+    note="Fill combined with a lifespan under appends is decided by correspondence + falsifier. Axioms: none.",
     technique="Coq proof (inductive fill relation) + vm_compute correspondence + falsifier",
     design="5/C12")
 CHECKS["C15"] = dict(
@@ -87,13 +88,15 @@ CHECKS["C01"] = dict(
          "indicator - ends in exactly the store (or exception) of one calculate() over the whole stream (canonical causal semantics, "
          "proved by induction over the loop for all streams, lengths and chunkings), and on a collapsing timeframe the re-collapse "
          "of calculated buckets followed by new raw candles, then calculate(), gives the batch result on the resampled whole stream "
-         "- also with Heikin-Ashi conversion between collapse and indicator. First composite: for a parent with a pure reading "
+         "- also with Heikin-Ashi conversion between collapse and indicator, with gap filling (collapse + fill), and with gap filling and "
+         "Heikin-Ashi together (collapse, fill, convert): a structural theorem shows that an append leaves a prefix of the stored series "
+         "untouched and rebuilds the rest from fresh candles, on which both sides agree. First composite: for a parent with a pure reading "
          "function and one leaf helper (ATR over its true-range series, all obligations discharged) every chunked run ends in the "
          "result of one successful calculate() over the whole stream. "
          "The two obligations are discharged for HLA, TR, OBV, EMA, SMA, RMA, WMA, VWMA, ROC, Counter, HL, Donchian, AROON and every Amorph-wrapped analysis "
          "function (all periods >= 1, all inputs not reading the own slot). " + ENGINE_TIE +
          "Falsifier: incremental vs batch deep equality over all 27 kinds + Amorph wrappers, base/S/T/H/D timeframes, fill, HA.",
-    note="Proved for leaf indicators on the base and on collapsing timeframes, with or without Heikin-Ashi (fill and lifespan are not in the composition); for the "
+    note="Proved for leaf indicators on the base and on collapsing timeframes, with or without gap filling and Heikin-Ashi (the lifespan is not in the engine-level composition); for the "
          "other composite kinds (managed helper series, several or nested helpers) the property is decided by correspondence + falsifier. Axioms: none.",
     technique="Coq proof (canonical-semantics induction over the calculate loop; per-indicator causality lemmas) + vm_compute correspondence + falsifier",
     design="5/C01")
